@@ -118,6 +118,10 @@ def main(names):
             else:
                 r = subprocess.run(["git", "-C", wt, "apply", payload], capture_output=True, text=True)
                 if r.returncode:
+                    # context moved by later repairs: fall back to a three-way merge (clean merges only)
+                    r = subprocess.run(["git", "-C", wt, "apply", "--3way", payload], capture_output=True, text=True)
+                    subprocess.run(["git", "-C", wt, "reset", "-q"], capture_output=True)
+                if r.returncode:
                     return None, [], "patch does not apply: %s" % r.stderr[-300:]
             return run_check(prop, wt)
         rc, viol, tail = with_worktree(job)
